@@ -118,6 +118,66 @@ def _check_norms(fails):
   return n
 
 
+def _check_transpose_general(fails):
+  """ConvTranspose: the bias is added once per output position (also across the CIRCULAR wrap) and Linen == NNX;
+  DenseGeneral / LinearGeneral: the contraction over `axis` in whatever order the axes are listed"""
+  import jax
+  import jax.numpy as jnp
+  import flax.linen as nn
+  from flax import nnx
+  rng = np.random.RandomState(4)
+  n = 0
+  for K, stride, padding, tk in itertools.product((1, 2, 3, 4), (1, 2), ('SAME', 'VALID', 'CIRCULAR'), (False, True)):
+    x = jnp.asarray(rng.randn(2, 6, 3).astype(np.float32))
+    w = jnp.asarray(rng.randn(K, 2, 3).astype(np.float32) if tk else rng.randn(K, 3, 2).astype(np.float32))
+    b = jnp.asarray([0.75, -1.25], jnp.float32)
+    cfg = dict(kernel=K, stride=stride, padding=padding, transpose_kernel=tk)
+    lm = nn.ConvTranspose(features=2, kernel_size=(K,), strides=(stride,), padding=padding, transpose_kernel=tk)
+    yl = np.asarray(lm.apply({'params': {'kernel': w, 'bias': b}}, x))
+    yl0 = np.asarray(lm.apply({'params': {'kernel': w, 'bias': jnp.zeros_like(b)}}, x))
+    nm = nnx.ConvTranspose(3, 2, kernel_size=(K,), strides=(stride,), padding=padding, transpose_kernel=tk, rngs=nnx.Rngs(0))
+    nm.kernel.value, nm.bias.value = w, b
+    yn = np.asarray(nm(x))
+    nm.bias.value = jnp.zeros_like(b)
+    yn0 = np.asarray(nm(x))
+    n += 2
+    for tag, y, y0 in (('linen.ConvTranspose', yl, yl0), ('nnx.ConvTranspose', yn, yn0)):
+      if y.shape != y0.shape or np.abs((y - y0) - np.asarray(b)).max() > TOL:
+        fails.append(dict(inputs=dict(cfg, layer=tag), observed=f'layer(W, b) - layer(W, 0) is not the bias at every output position: {np.unique(np.round(y - y0, 4)).tolist()[:8]} for bias {np.asarray(b).tolist()}', violated='conv-formula'))
+        return n
+    if yl.shape != yn.shape or np.abs(yl - yn).max() > TOL:
+      fails.append(dict(inputs=dict(cfg, layer='nnx.ConvTranspose vs linen.ConvTranspose'), observed='Linen and NNX disagree for the same parameters', violated='linen-nnx-agree'))
+      return n
+  xs = rng.randn(2, 3, 4, 5).astype(np.float32)
+  for axis in ((-1,), (-2, -1), (-1, -2), (1, 3), (3, 1), (-1, 1), (1, -1), (3, 2, 1), (1, 2, 3), (-3, -1, -2)):
+    for features in ((6,), (2, 3)):
+      norm = sorted(a % 4 for a in axis)
+      kshape = tuple(xs.shape[a] for a in norm) + features
+      kern = rng.randn(*kshape).astype(np.float32)
+      bias = rng.randn(*features).astype(np.float32)
+      want = np.tensordot(xs.astype(np.float64), kern.astype(np.float64), axes=(norm, list(range(len(norm))))) + bias
+      cfg = dict(axis=axis, features=features, input_shape=xs.shape, kernel_shape=kshape)
+      n += 2
+      try:
+        got_l = np.asarray(nn.DenseGeneral(features=features if len(features) > 1 else features[0], axis=axis).apply({'params': {'kernel': jnp.asarray(kern), 'bias': jnp.asarray(bias)}}, jnp.asarray(xs)))
+        lg = nnx.LinearGeneral(tuple(xs.shape[a] for a in norm) if len(axis) > 1 else xs.shape[axis[0] % 4], features if len(features) > 1 else features[0], axis=axis, rngs=nnx.Rngs(0))
+        if tuple(lg.kernel.value.shape) == kshape:
+          lg.kernel.value, lg.bias.value = jnp.asarray(kern), jnp.asarray(bias)
+          got_n = np.asarray(lg(jnp.asarray(xs)))
+        else:
+          got_n = None
+      except Exception as e:  # noqa
+        fails.append(dict(inputs=cfg, observed=f'raised {e!r}'[:300], violated='dense-formula'))
+        return n
+      if got_l.shape != want.shape or np.abs(got_l - want).max() > 1e-3:
+        fails.append(dict(inputs=dict(cfg, layer='linen.DenseGeneral'), observed='differs from the tensor contraction over the listed axes (kernel dims paired with the axes in ascending order) plus bias', violated='dense-formula'))
+        return n
+      if got_n is not None and (got_n.shape != want.shape or np.abs(got_n - want).max() > 1e-3):
+        fails.append(dict(inputs=dict(cfg, layer='nnx.LinearGeneral'), observed='differs from the tensor contraction over the listed axes (kernel dims paired with the axes in ascending order) plus bias / from linen.DenseGeneral', violated='dense-formula'))
+        return n
+  return n
+
+
 def _check_misc(fails):
   import jax
   import jax.numpy as jnp
@@ -264,11 +324,11 @@ def _check_einsum_pool(fails):
 def run(tier, seed):
   fails = []
   cases = 0
-  for f in (_check_conv, _check_norms, _check_misc, _check_einsum_pool):
+  for f in (_check_conv, _check_transpose_general, _check_norms, _check_misc, _check_einsum_pool):
     cases += f(fails)
     if fails:
       break
-  return dict(name=NAME, cases=cases, distinct=cases, bound='Conv1D: kernels 1-4 x dilation 1-2 x stride 1-2 x 6 padding modes; LayerNorm/BatchNorm x fast/two-pass variance x mask; Dense, Dropout, pooling, Embed (in-range, negative and out-of-range ids, linen and nnx); Einsum with bias (4 equations incl. permuted result letters, linen and nnx); max/min/avg pooling with explicit padding',
+  return dict(name=NAME, cases=cases, distinct=cases, bound='Conv1D: kernels 1-4 x dilation 1-2 x stride 1-2 x 6 padding modes; LayerNorm/BatchNorm x fast/two-pass variance x mask; ConvTranspose kernels 1-4 x stride 1-2 x SAME/VALID/CIRCULAR x transpose_kernel (bias linearity, linen == nnx); DenseGeneral / LinearGeneral over 10 axis listings x 2 feature shapes; Dense, Dropout, pooling, Embed (in-range, negative and out-of-range ids, linen and nnx); Einsum with bias (4 equations incl. permuted result letters, linen and nnx); max/min/avg pooling with explicit padding',
               failures=fails[:2], error=None)
 
 
